@@ -6,7 +6,8 @@
      wN Theta t = incl_excl (map zi Theta) (zi t): the inclusion-exclusion value, which IS the computed weight (c02b_weights_are_computed,
        from c02w_weights_inclusion_exclusion);  inj = the canonical map Z -> R (gen_phiZ);
      prodU fs t = prod_j f_j (t_j), prodD fs t = prod_j (f_j (t_j) - f_j (t_j - 1)) (second term absent at level 0).
-   (A) tw_cpp = tw_lines is proved only for D = 1 (c02b_tw_cpp_eq_tw_lines_partial); for D >= 2 it is checked by computation on every
+   (A) tw_cpp = tw_lines is proved HERE only for D = 1 (c02b_tw_cpp_eq_tw_lines_partial; the full statement for every D is
+       c02c_tw_cpp_eq_tw_lines in Props/Properties_C02_cpp.v); for D >= 2 it is checked by computation on every
    sub-list of small boxes (Examples) and on every case of the executable tie (props/c02weights.py). *)
 From TV Require Import Common.Prelude Model.IndexSets Model.TensorWeights.
 From TV Require Import Proofs.IndexSetsProofs Proofs.CombinationProofs Proofs.TensorSelectProofs Proofs.TensorWeightsProofs.
